@@ -4,6 +4,7 @@
      R  run one pending worker hand-off (which one: symbolic)
      S  dispatch_suspend   r dispatch_resume   A dispatch_activate      (C06)
      X  dispatch_release of the client's reference to the queue        (C17; only as last queue op)
+     T  dispatch_set_target_queue(top queue, serial queue 1) on the ACTIVE top queue (INDEP configuration)   (C03)
    A letter may be followed by a digit naming the queue it addresses: 0 = top queue (default), 1 = its target queue (only with CHAIN), 2 = a sibling queue
    targeting the same bottom queue (only with FANIN).
    '~' after an item-submitting op means: the NEXT op is issued by the running item itself (same thread) from inside its body (C18: synchronous submission
@@ -12,7 +13,7 @@
        If B has to block, B's path ends there (it would resume only after the item finished); everything B did before is checked.
    Configurations (defines):  QCONC top queue concurrent; CHAIN top queue targets a serial queue; FANIN second queue on the same bottom queue;
                               INACTIVE top queue created initially inactive; SETTARGET retarget through dispatch_set_target_queue instead of create_with_target;
-                              CHAINCONC inner level concurrent, bottom serial.
+                              CHAINCONC inner level concurrent, bottom serial; BOTTOMCONC (with CHAIN) the top queue targets a custom concurrent queue.
    Symbolic per query: which pending hand-off a worker picks, (C06) pre-loaded suspend count. */
 #include "hist.h"
 #ifndef SEQ
@@ -32,7 +33,7 @@ static _Bool is_sync(char c) { return c == 's' || c == 'B' || c == 'w'; }
 static _Bool is_item(char c) { return c == 'a' || c == 'b' || c == 's' || c == 'B' || c == 'w' || c == 'g'; }
 static _Bool is_barrier_item(int i) { return kind[i] == 'b' || kind[i] == 'B' || !q_conc[item_qi[i]] ; }
 static void do_op(int s, int thread);
-static int hist_pos;
+static int hist_pos; static _Bool retargeted;
 static int self_op[NITEMS], item_parent[NITEMS]; static int assert_fail_calls; static _Bool expect_assert_fail;
 #if defined(NATIVE_REPLAY) && defined(HIST_TRACE)
 static void hdump(const char *w) { for (int k = 0; k < NQ; k++) if (k < nq) __builtin_printf("  [%s: queue %d state=%016llx tail=%llx head=%llx]\n", w, k, IR_LD64(Q[k] + P_OFF_dq_state), IR_LD64(Q[k] + P_OFF_items_tail), IR_LD64(Q[k] + P_OFF_items_head)); }
@@ -88,6 +89,11 @@ static void hist_item_body(int i) {
       ASSERT(!(is_barrier_item(i) || is_barrier_item(j)), "BARRIER: a barrier item overlaps another item of its concurrent queue");
     }
   }
+  /* LOCK-CHAIN (C03): an item of a queue that currently targets a serial queue of the hierarchy runs only on a thread that holds that queue's drain lock - whether the
+     hierarchy was built at creation, before activation, or by dispatch_set_target_queue on the active queue (read from do_targetq at the moment the item starts) */
+  { u64 tq = IR_LD64(Q[qi] + P_OFF_do_targetq);
+    for (int k = 0; k < NQ; k++) if (k < nq && k != qi && tq == Q[k] && !q_conc[k])
+      ASSERT((IR_LD64(Q[k] + P_OFF_dq_state) & P_OWNER_MASK) == ((u64)IR_LD32(TSD(ir_cur)) & P_OWNER_MASK), "HIERARCHY: an item of a queue that targets a serial queue runs on a thread that does not hold that serial queue's drain lock (nothing serialises it with the other items of the hierarchy)"); }
   ASSERT(ncur < 4, "harness bound: nesting depth"); cur_items[ncur++] = i;
 #ifdef IDENTITY
   identity_checks(i);
@@ -122,6 +128,7 @@ static void do_op(int s, int thread) {
   } else if (c == 'S') { dispatch_suspend(q); suspend_cnt[qi]++; }
   else if (c == 'r') { ASSERT(suspend_cnt[qi] > 0, "sequence resumes a queue that is not suspended (driver must not generate this)"); suspend_cnt[qi]--; dispatch_resume(q); }
   else if (c == 'A') { inactive[qi] = 0; dispatch_activate(q); }
+  else if (c == 'T') { ASSERT(nq == 3 && qi == 0, "retarget op needs the INDEP configuration"); dispatch_set_target_queue(Q[0], Q[1]); retargeted = 1; }   /* retarget the ACTIVE top queue onto the serial queue Q[1] */
   else if (c == 'X') { ASSERT(!released[qi], "sequence releases a queue twice (driver must not generate this)"); released[qi] = 1; dispatch_release(q); }
   else ASSERT(0, "unknown op letter");
   ir_cur = me;
@@ -161,7 +168,11 @@ void harness(void) {
   inact0 = 1;
 #endif
 #if defined(CHAIN) || defined(FANIN)
+#ifdef BOTTOMCONC
+  Q[1] = mkqueue(1, 0, 0); q_conc[1] = 1; nq = 2;           /* the queue targeted by the top queue is a custom CONCURRENT queue (no serial domain) */
+#else
   Q[1] = mkqueue(0, 0, 0); q_conc[1] = 0; nq = 2;           /* the serial bottom queue */
+#endif
 #ifdef SETTARGET
   mk_top = 1; Q[0] = mkqueue(conc0, 1, 0); mk_top = 0; dispatch_set_target_queue(Q[0], Q[1]); if (!inact0) dispatch_activate(Q[0]);   /* retarget while inactive, then activate */
 #else
